@@ -375,6 +375,7 @@ func init() {
 		"RSub": func(x *Exec, st *State, fr *Frame, args []Value, site ssa.Instruction) []Result {
 			return ret1(st, x.tf.FFun("exact_sub", args[1].(*Term), args[2].(*Term)))
 		},
+		"ConcRun": concRunIntrinsic,
 		"Stream": func(x *Exec, st *State, fr *Frame, args []Value, site ssa.Instruction) []Result {
 			return ret1(st, &SliceV{})
 		},
@@ -601,10 +602,31 @@ func init() {
 		"sort.Sort":              sortSort,
 		"sort.Ints":              sortInts,
 		"sync/atomic.LoadInt32": func(x *Exec, st *State, fr *Frame, args []Value, site ssa.Instruction) []Result {
-			return ret1(st, x.load(st, args[0].(*PtrV)))
+			p := args[0].(*PtrV)
+			if x.concShared(p.Obj) {
+				loc := locOf(p)
+				if _, ok := x.conc.init[loc]; !ok {
+					x.conc.init[loc] = x.load(x.conc.entry, p).(*Term)
+				}
+				x.conc.nLocal++
+				name := fmt.Sprintf("ald!%d", x.conc.nLocal)
+				x.conc.local[name] = true
+				v := x.tf.Var(name, SBV(32))
+				x.concLog(st, "AL", loc, v, site)
+				return ret1(st, v)
+			}
+			return ret1(st, x.load(st, p))
 		},
 		"sync/atomic.StoreInt32": func(x *Exec, st *State, fr *Frame, args []Value, site ssa.Instruction) []Result {
-			x.store(st, args[0].(*PtrV), args[1])
+			p := args[0].(*PtrV)
+			if x.concShared(p.Obj) {
+				loc := locOf(p)
+				if _, ok := x.conc.init[loc]; !ok {
+					x.conc.init[loc] = x.load(x.conc.entry, p).(*Term)
+				}
+				x.concLog(st, "AS", loc, args[1].(*Term), site)
+			}
+			x.store(st, p, args[1])
 			return ret1(st, nil)
 		},
 		"(*sync.RWMutex).Lock":    mutexOp("Lock"),
@@ -621,6 +643,13 @@ func init() {
 func mutexOp(op string) intrinsicFn {
 	return func(x *Exec, st *State, fr *Frame, args []Value, site ssa.Instruction) []Result {
 		p := args[0].(*PtrV)
+		if x.concShared(p.Obj) {
+			k := "L"
+			if op == "Unlock" || op == "RUnlock" {
+				k = "U"
+			}
+			x.concLog(st, k, fmt.Sprintf("mu:o%d%v", p.Obj, p.Path), nil, site)
+		}
 		key := fmt.Sprintf("mutex:%d%v", p.Obj, p.Path)
 		held, _ := st.ghost[key].(*Term)
 		if held == nil {
